@@ -208,8 +208,13 @@ pub fn check_case(c: &Case, st: &mut Stats) -> PResult {
     ensure!(r.result.is_ok(), "C08: unexpected error {:?}", r.result);
     let api_result: Option<bool> = r.events.iter().find_map(|e| if let Ev::BailOut { h, err } = e { if h.contains('.') { Some(err.starts_with("Ok")) } else { None } } else { None });
     let out_str = enc.decode_without_bom_handling(&r.out).0.into_owned();
-    let base = merge(tokens(tpl));
-    let got = merge(tokens(&out_str));
+    let (base, got) = match guard(|| (merge(tokens(tpl)), merge(tokens(&out_str)))) {
+        Ok(x) => x,
+        Err(_) => {
+            st.excluded("the reference parser (html5ever) panicked on this input");
+            return Ok(());
+        }
+    };
     let si = base.iter().position(|t| matches!(t, HT::Start { attrs, .. } if attrs.iter().any(|a| a.0 == "id" && a.1 == "t"))).unwrap();
     let tname = if let HT::Start { name, .. } = &base[si] { name.clone() } else { unreachable!() };
     let ei = si + base[si..].iter().position(|t| matches!(t, HT::End(n) if *n == tname)).unwrap();
